@@ -8,7 +8,11 @@ Part A (policy): the REAL `meson setup --backend=none` of $VERIF_REPO on generat
   name, under nofallback no subproject is configured from a lookup.  Sequences of <= 3 lookups: same arguments
   -> same answer; once found, the same value.  A `static:` factor on the lookups x default_library of the main
   project vs the subproject (same / default_options / -Dsub:default_library) for the link kinds that rely on the
-  subproject's meson.override_dependency(); reconfigurations with other wrap_mode / force_fallback_for.
+  subproject's meson.override_dependency(); reconfigurations with other wrap_mode / force_fallback_for and with
+  the system dependency living in two pkg-config directories (different versions) selected by an ordered
+  -Dpkg_config_path that the reconfiguration reorders / shrinks / grows (the answer must equal that of a fresh
+  configuration with the same options); fallback / provide subprojects that register their overrides (the name,
+  another name, a program) and then FAIL, followed by more lookups (a failed subproject provides nothing).
 Part B (integrity): wrap worlds with a corruption class at a location, a recorded-hash class and an injected
   fault, through `meson setup` and `meson subprojects download`.  Monitors wrap shutil.unpack_archive,
   urllib.request.urlopen, Resolver.get_data/check_hash/copy_tree.  Online: at every unpack the monitor hashes
